@@ -222,7 +222,14 @@ func (g *gen) stmt(d int) []node {
 		l := fmt.Sprintf("l%d", g.nLabel)
 		g.labels = append(g.labels, l)
 		g.pending = append(append([]string{}, pending...), l)
-		inner := g.stmt(d - 1)
+		var inner []node
+		if g.r.Chance(40) {
+			ps := g.pending
+			g.pending = nil
+			inner = g.loop(d-1, ps) // a labelled loop, so that `continue l` has a target
+		} else {
+			inner = g.stmt(d - 1)
+		}
 		g.labels = g.labels[:len(g.labels)-1]
 		g.pending = nil
 		// the label attaches to the LAST statement of the expansion (the loop itself)
@@ -306,6 +313,7 @@ func (g *gen) jump() node {
 	}
 	var cands []string
 	cands = append(cands, g.loopLabels...)
+	cands = append(cands, g.loopLabels...) // labelled continues as often as plain ones
 	if g.inLoop > 0 {
 		cands = append(cands, "", "")
 	}
